@@ -15,6 +15,7 @@
 From Coq Require Import ZArith List String Permutation.
 From LV Require Import Base.Conc Base.Events Base.Lin Spec.Specs Model.MsPq
   Proofs.MsPqBrc Proofs.MsPqInv Proofs.MsPqProofs Proofs.MsPqHeap Proofs.MsPqSeq Proofs.MsPqPhase Proofs.MsPqBounds Proofs.MsPqPush.
+From LV Require Import Proofs.MsPqBrcGen Proofs.MsPqBrcAll Proofs.MsPqReal Proofs.MsPqPushLin.
 Require LV.Model.FcKernel LV.Model.FcBatch LV.Proofs.FcBatchProofs LV.Proofs.FcKernelProofs LV.Proofs.FcContainers.
 Import ListNotations.
 Local Open Scope Z_scope.
@@ -27,8 +28,9 @@ Local Open Scope string_scope.
     threads with an operation in progress ([pend]) have one. *)
 Theorem C11_mspq_conservation :
   forall cap, slots_ok cap = true ->
+  forall bsz, (cap < bsz)%nat ->
   forall (hf lf : nat) (ths : list (list MsPq.op)) c,
-    Conc.reach (MsPq.init_cfg cap hf lf ths) c ->
+    Conc.reach (MsPq.init_cfg cap bsz hf lf ths) c ->
     exists held : list (nat * item),
       NoDup (map fst held) /\
       (forall t x, In (t, x) held -> pend (Conc.trace c) t = true) /\
@@ -40,8 +42,9 @@ Print Assumptions C11_mspq_conservation.
 (** at quiescence: cells + popped + refused = pushed, as multisets *)
 Theorem C11_mspq_conservation_quiescent :
   forall cap, slots_ok cap = true ->
+  forall bsz, (cap < bsz)%nat ->
   forall (hf lf : nat) (ths : list (list MsPq.op)) c,
-    Conc.reach (MsPq.init_cfg cap hf lf ths) c ->
+    Conc.reach (MsPq.init_cfg cap bsz hf lf ths) c ->
     (forall t, pend (Conc.trace c) t = false) ->
     Permutation (heap_items cap (Conc.shared c) ++ given_back (Conc.trace c)) (invoked (Conc.trace c)).
 Proof. exact mspq_conservation_quiescent. Qed.
@@ -50,8 +53,9 @@ Print Assumptions C11_mspq_conservation_quiescent.
 (** no duplication: distinct pushed items are never in two places (two cells, a cell and a result, two results) *)
 Theorem C11_mspq_no_duplicates :
   forall cap, slots_ok cap = true ->
+  forall bsz, (cap < bsz)%nat ->
   forall (hf lf : nat) (ths : list (list MsPq.op)) c,
-    Conc.reach (MsPq.init_cfg cap hf lf ths) c -> NoDup (invoked (Conc.trace c)) ->
+    Conc.reach (MsPq.init_cfg cap bsz hf lf ths) c -> NoDup (invoked (Conc.trace c)) ->
     NoDup (heap_items cap (Conc.shared c) ++ given_back (Conc.trace c)).
 Proof. exact mspq_no_duplicates. Qed.
 Print Assumptions C11_mspq_no_duplicates.
@@ -63,8 +67,9 @@ Print Assumptions C11_mspq_no_duplicates.
     [fails_ok_spec] / [just_true_inv] in LV.Proofs.MsPqProofs). *)
 Theorem C11_mspq_push_fails_only_if_full :
   forall cap, slots_ok cap = true ->
+  forall bsz, (cap < bsz)%nat ->
   forall (hf lf : nat) (ths : list (list MsPq.op)) c,
-    Conc.reach (MsPq.init_cfg cap hf lf ths) c ->
+    Conc.reach (MsPq.init_cfg cap bsz hf lf ths) c ->
     full_events_ok cap (Conc.trace c) /\ fails_ok (Conc.trace c) = true.
 Proof. exact mspq_push_fails_only_if_full. Qed.
 Print Assumptions C11_mspq_push_fails_only_if_full.
@@ -74,8 +79,9 @@ Print Assumptions C11_mspq_push_fails_only_if_full.
     ([phist]), is a prefix of the history [spec_hist] computed by Specs.bpq_step from the empty queue. *)
 Theorem C11_mspq_sequential_refines_pq :
   forall cap, slots_ok cap = true -> shape_ok cap = true ->
+  forall bsz, (cap < bsz)%nat ->
   forall (hf lf : nat) (os : list MsPq.op) c,
-    Conc.reach (MsPq.init_cfg cap hf lf [os]) c ->
+    Conc.reach (MsPq.init_cfg cap bsz hf lf [os]) c ->
     exists fut, (phist (Conc.trace c) ++ fut)%list = spec_hist cap [] os.
 Proof. exact mspq_sequential_refines. Qed.
 Print Assumptions C11_mspq_sequential_refines_pq.
@@ -86,8 +92,9 @@ Definition C11_mspq_phase_linearizable_statement : Prop := mspq_phase_linearizab
 
 Theorem C11_mspq_phase_linearizable_partial :
   forall cap, slots_ok cap = true -> shape_ok cap = true ->
+  forall bsz, (cap < bsz)%nat ->
   forall (hf lf : nat) (os : list MsPq.op) c,
-    Conc.reach (MsPq.init_cfg cap hf lf [os]) c ->
+    Conc.reach (MsPq.init_cfg cap bsz hf lf [os]) c ->
     linearizable (BPQueue cap) (hist_of cap (Conc.trace c)).
 Proof. exact mspq_phase_linearizable_partial. Qed.
 Print Assumptions C11_mspq_phase_linearizable_partial.
@@ -101,8 +108,9 @@ Print Assumptions C11_mspq_phase_linearizable_partial.
     [C11_mspq_phase_linearizable_statement] are not proved: see LV.Proofs.MsPqPhase. *)
 Theorem C11_mspq_push_phase_heap :
   forall cap, slots_ok cap = true -> shape_ok cap = true ->
+  forall bsz, (cap < bsz)%nat ->
   forall (hf lf : nat) (ths : list (list MsPq.op)) c,
-    Conc.reach (MsPq.init_cfg cap hf lf ths) c ->
+    Conc.reach (MsPq.init_cfg cap bsz hf lf ths) c ->
     pop_invoked (Conc.trace c) = false -> (forall t, pend (Conc.trace c) t = false) ->
     Good (count (Conc.shared c)) (cellv (Conc.shared c)) (cellt (Conc.shared c)) /\
     Permutation (heap_items cap (Conc.shared c) ++ given_back (Conc.trace c)) (invoked (Conc.trace c)).
@@ -113,13 +121,23 @@ Print Assumptions C11_mspq_push_phase_heap.
     in heap order *)
 Example C11_mspq_push_phase_nonvacuous :
   let r := Conc.run 3000 0 [0;1;2;2;1;0;0;0;1;2;1;1;2;0;2;2;1;0;1;2;0;0;1;2;2;2;1;1;0]%nat
-             (MsPq.init_cfg 7 60 60 [[OPush (1, 1); OPush (5, 2)]; [OPush (3, 3); OPush (5, 4)]; [OPush (4, 5); OPush (2, 6)]]) in
+             (MsPq.init_cfg 7 8 60 60 [[OPush (1, 1); OPush (5, 2)]; [OPush (3, 3); OPush (5, 4)]; [OPush (4, 5); OPush (2, 6)]]) in
   snd r = true /\ pop_invoked (Conc.trace (fst r)) = false /\ count (Conc.shared (fst r)) = 6%nat /\
   forallb (fun k => match cellv (Conc.shared (fst r)) k, cellv (Conc.shared (fst r)) (Nat.div2 k) with
                     | Some x, Some y => Z.leb (prio x) (prio y) | Some _, None => false | None, _ => true end)
           (seq 2 6) = true /\
   List.length (heap_items 7 (Conc.shared (fst r))) = 6%nat.
 Proof. vm_compute. repeat split; reflexivity. Qed.
+
+(** push-only phases are linearizable, for every schedule and EVERY capacity and buffer size (only the item counter
+    matters): as long as no pop has been invoked, the trace annotated with the linearization points at the size-lock
+    acquisitions (ghost events "g_inc" / "g_full") is a valid LP trace of BPQueue cap, hence the history is linearizable *)
+Theorem C11_mspq_push_phase_linearizable :
+  forall (cap bsz hf lf : nat) (ths : list (list MsPq.op)) c,
+    Conc.reach (MsPq.init_cfg cap bsz hf lf ths) c -> pop_invoked (Conc.trace c) = false ->
+    linearizable (BPQueue cap) (hist_of cap (Conc.trace c)).
+Proof. exact mspq_push_phase_linearizable. Qed.
+Print Assumptions C11_mspq_push_phase_linearizable.
 
 (** ** capacities *)
 Theorem C11_mspq_capacities :
@@ -131,8 +149,9 @@ Print Assumptions C11_mspq_capacities.
     by the event "ub_oob"; no reachable trace, under any schedule, contains it *)
 Theorem C11_mspq_no_out_of_bounds :
   forall cap, slots_ok cap = true ->
+  forall bsz, (cap < bsz)%nat ->
   forall (hf lf : nat) (ths : list (list MsPq.op)) c,
-    Conc.reach (MsPq.init_cfg cap hf lf ths) c ->
+    Conc.reach (MsPq.init_cfg cap bsz hf lf ths) c ->
     forall te, In te (Conc.trace c) -> is_cli "ub_oob" (snd te) = false.
 Proof. exact mspq_no_oob_event. Qed.
 Print Assumptions C11_mspq_no_out_of_bounds.
@@ -163,7 +182,7 @@ Proof. vm_compute. split; reflexivity. Qed.
 Example C11_mspq_conservation_nonvacuous :
   slots_ok 3 = true /\
   let r := Conc.run 2000 0 [0;1;0;1;1;0;0;1;1;1;0]%nat
-             (MsPq.init_cfg 3 50 50 [[OPush (5, 1); OPush (7, 2); OPop]; [OPush (7, 3); OPop; OPush (1, 4)]]) in
+             (MsPq.init_cfg 3 4 50 50 [[OPush (5, 1); OPush (7, 2); OPop]; [OPush (7, 3); OPop; OPush (1, 4)]]) in
   snd r = true /\
   List.length (invoked (Conc.trace (fst r))) = 4%nat /\
   List.length (given_back (Conc.trace (fst r))) = 2%nat /\
@@ -181,11 +200,73 @@ Proof. vm_compute. repeat split; reflexivity. Qed.
 (** a sequential run with equal priorities whose whole history is the specification's *)
 Example C11_mspq_sequential_nonvacuous :
   let os := [OPush (2, 1); OPush (2, 2); OPush (1, 3); OPush (3, 4); OPop; OPop; OPop; OPop; OPop] in
-  let r := Conc.run 5000 0 [] (MsPq.init_cfg 3 50 50 [os]) in
+  let r := Conc.run 5000 0 [] (MsPq.init_cfg 3 4 50 50 [os]) in
   slots_ok 3 = true /\ shape_ok 3 = true /\ snd r = true /\
   phist (Conc.trace (fst r)) = spec_hist 3 [] os /\
   spec_hist 3 [] os = [[1;2]; [2;1]; [1;2]; [2;1]; [1;1]; [2;1]; [1;3]; [2;0]; [3]; [4;1;2]; [3]; [4;1;2]; [3]; [4;1;1]; [3]; [4;0;0]; [3]; [4;0;0]].
 Proof. vm_compute. repeat split; reflexivity. Qed.
+
+(** ** the capacities of the real code: capacity() = floor2(buffer size) - 1 = 2^k - 1 ([rcap k]); buffer size [bsz]
+    is any number above it (cells capacity()+1 .. bsz-1 are the unused tail of a buffer whose size is not a power of two).
+    The counter facts hold for EVERY such capacity below 2^61 -- no bounded sweep: they are derived from the closed
+    form of C26 through the equality of the model's counter with the generated translation of
+    cds/details/bit_reverse_counter.h. *)
+Theorem C11_mspq_counter_is_generated_inc :
+  forall (fuel : nat) (s : MsPq.brc), (65 <= fuel)%nat -> representable s ->
+    Gen_brc.brc_inc fuel (to_gen s) = Some (fst (MsPq.brc_inc s), to_gen (snd (MsPq.brc_inc s))).
+Proof. exact brc_inc_is_generated. Qed.
+Print Assumptions C11_mspq_counter_is_generated_inc.
+
+Theorem C11_mspq_counter_is_generated_dec :
+  forall (fuel : nat) (s : MsPq.brc), (65 <= fuel)%nat -> 1 <= bc s < 2 ^ 64 -> 0 <= br s < 2 ^ 64 -> 0 <= bh s < 64 ->
+    Gen_brc.brc_dec fuel (to_gen s) = Some (fst (MsPq.brc_dec s), to_gen (snd (MsPq.brc_dec s))).
+Proof. exact brc_dec_is_generated. Qed.
+Print Assumptions C11_mspq_counter_is_generated_dec.
+
+Theorem C11_mspq_real_capacities :
+  forall k, (k <= 61)%nat -> slots_ok (rcap k) = true /\ shape_ok (rcap k) = true.
+Proof. exact real_capacities. Qed.
+Print Assumptions C11_mspq_real_capacities.
+
+Theorem C11_mspq_conservation_real :
+  forall (k bsz hf lf : nat) (ths : list (list MsPq.op)) c,
+    (k <= 61)%nat -> (rcap k < bsz)%nat -> Conc.reach (MsPq.init_cfg (rcap k) bsz hf lf ths) c ->
+    exists held : list (nat * item),
+      NoDup (map fst held) /\ (forall t x, In (t, x) held -> pend (Conc.trace c) t = true) /\
+      Permutation (heap_items (rcap k) (Conc.shared c) ++ map snd held ++ given_back (Conc.trace c)) (invoked (Conc.trace c)).
+Proof. exact mspq_conservation_real. Qed.
+Print Assumptions C11_mspq_conservation_real.
+
+Theorem C11_mspq_push_fails_only_if_full_real :
+  forall (k bsz hf lf : nat) (ths : list (list MsPq.op)) c,
+    (k <= 61)%nat -> (rcap k < bsz)%nat -> Conc.reach (MsPq.init_cfg (rcap k) bsz hf lf ths) c ->
+    full_events_ok (rcap k) (Conc.trace c) /\ fails_ok (Conc.trace c) = true.
+Proof. exact mspq_push_fails_only_if_full_real. Qed.
+Print Assumptions C11_mspq_push_fails_only_if_full_real.
+
+Theorem C11_mspq_no_out_of_bounds_real :
+  forall (k bsz hf lf : nat) (ths : list (list MsPq.op)) c,
+    (k <= 61)%nat -> (rcap k < bsz)%nat -> Conc.reach (MsPq.init_cfg (rcap k) bsz hf lf ths) c ->
+    forall te, In te (Conc.trace c) -> is_cli "ub_oob" (snd te) = false.
+Proof. exact mspq_no_oob_real. Qed.
+Print Assumptions C11_mspq_no_out_of_bounds_real.
+
+Theorem C11_mspq_sequential_real :
+  forall (k bsz hf lf : nat) (os : list MsPq.op) c,
+    (k <= 61)%nat -> (rcap k < bsz)%nat -> Conc.reach (MsPq.init_cfg (rcap k) bsz hf lf [os]) c ->
+    (exists fut, (phist (Conc.trace c) ++ fut)%list = spec_hist (rcap k) [] os) /\
+    linearizable (BPQueue (rcap k)) (hist_of (rcap k) (Conc.trace c)).
+Proof. exact mspq_sequential_real. Qed.
+Print Assumptions C11_mspq_sequential_real.
+
+Theorem C11_mspq_push_phase_real :
+  forall (k bsz hf lf : nat) (ths : list (list MsPq.op)) c,
+    (k <= 61)%nat -> (rcap k < bsz)%nat -> Conc.reach (MsPq.init_cfg (rcap k) bsz hf lf ths) c ->
+    pop_invoked (Conc.trace c) = false -> (forall t, pend (Conc.trace c) t = false) ->
+    Good (count (Conc.shared c)) (cellv (Conc.shared c)) (cellt (Conc.shared c)) /\
+    Permutation (heap_items (rcap k) (Conc.shared c) ++ given_back (Conc.trace c)) (invoked (Conc.trace c)).
+Proof. exact mspq_push_phase_real. Qed.
+Print Assumptions C11_mspq_push_phase_real.
 
 (** ** FCPriorityQueue (model LV.Model.FcKernel + FcBatch, proofs LV.Proofs.FcContainers -- flat-combining work).
     For every schedule, any number of threads, compact factor and combine pass count: on traces without the
@@ -200,3 +281,13 @@ Theorem C11_fcpq_linearizable_partial :
     linearizable PQueue (FcContainers.fc_history PQueue FcBatch.res_dec FcBatch.s_dec (Conc.trace c)).
 Proof. exact FcContainers.fcpq_linearizable_partA. Qed.
 Print Assumptions C11_fcpq_linearizable_partial.
+
+(** the unconditional form (no "lost" hypothesis; [chk = true] is the current code; [passes_ok]: every request is a
+    batch request or the combine pass count is at least 1, see [FcContainers.passes_ok_pos]) *)
+Theorem C11_fcpq_linearizable :
+  forall (fuel mask npass : nat) ths c,
+    FcKernelProofs.ops_ok FcBatch.s_okop ths -> FcContainers.passes_ok npass ths ->
+    Conc.reach (FcContainers.pq_init_cfg true fuel mask npass ths) c ->
+    linearizable PQueue (FcContainers.fc_history PQueue FcBatch.res_dec FcBatch.s_dec (Conc.trace c)).
+Proof. exact FcContainers.fcpq_linearizable. Qed.
+Print Assumptions C11_fcpq_linearizable.
